@@ -1027,7 +1027,7 @@ def tt_cp_apr_pqnr(  # noqa: PLR0912,PLR0913,PLR0915
                         dispLineWarn,
                     )
 
-                    lbfgsPos = np.mod(lbfgsPos, lbfgsMem)
+                    lbfgsPos = np.mod(lbfgsPos + 1, lbfgsMem)
 
                     m_rowOLD = m_row
                     gradOLD = gradM
@@ -1648,9 +1648,7 @@ def get_search_dir_pqnr(  # noqa: PLR0913
         alpha[k] = rho[k] * (delta_model[:, k].transpose().dot(direction))
         direction -= alpha[k] * (delta_grad[:, k])
         # TODO check mod
-        k = (
-            lbfgsSize - np.mod(1 - k, lbfgsSize) - 1
-        )  # -1 accounts for numpy indexing starting at 0 not 1
+        k = np.mod(k - 1, lbfgsSize)
 
     coef = (
         1
@@ -1660,7 +1658,7 @@ def get_search_dir_pqnr(  # noqa: PLR0913
     direction *= coef
 
     for _ in range(np.minimum(iters, lbfgsSize)):
-        k = np.mod(k, lbfgsSize)  # + 1
+        k = np.mod(k + 1, lbfgsSize)
         b = rho[k] * (delta_grad[:, k].transpose().dot(direction))
         direction += (alpha[k] - b) * (delta_model[:, k])
 
